@@ -2,6 +2,7 @@
 This module contains the implementation for the SNMPv3 message-processing model
 """
 
+import time
 from typing import Any, Awaitable, Callable, Dict, Optional, Union
 
 from x690.types import Integer, OctetString
@@ -50,6 +51,10 @@ class V3MPM(MessageProcessingModel[V3EncodingResult, TV3SecModel]):
     message-processing-model.
     """
 
+    #: Local (monotonic) time at which the discovery data was received. This
+    #: is needed to keep the engine-time of the remote device up-to-date.
+    disco_timestamp: float = 0.0
+
     def decode(
         self,
         whole_msg: bytes,  # as received from the network
@@ -84,6 +89,7 @@ class V3MPM(MessageProcessingModel[V3EncodingResult, TV3SecModel]):
             self.disco = await self.security_model.send_discovery_message(
                 self.transport_handler
             )
+            self.disco_timestamp = time.monotonic()
         security_engine_id = self.disco.authoritative_engine_id
 
         if engine_id == b"":
@@ -105,10 +111,14 @@ class V3MPM(MessageProcessingModel[V3EncodingResult, TV3SecModel]):
         )
 
         if self.disco is not None:
+            # The engine-time of the remote device advances while we hold on
+            # to the discovery data. Requests must stay inside the time-window
+            # of the remote engine (see RFC 3414, section 3.2, step 7).
+            elapsed = int(time.monotonic() - self.disco_timestamp)
             self.security_model.set_engine_timing(
                 self.disco.authoritative_engine_id,
                 self.disco.authoritative_engine_boots,
-                self.disco.authoritative_engine_time,
+                self.disco.authoritative_engine_time + elapsed,
             )
 
         snmp_version = 3
